@@ -19,8 +19,8 @@ use crate::{
     ser::Serialize,
     types::{
         DecryptionKey, EddsaLegacyPublicParams, EskType, Fingerprint, Imprint, KeyDetails, KeyId,
-        KeyVersion, Password, PkeskBytes, PlainSecretParams, PublicParams, SecretParams,
-        SignatureBytes, SigningKey, Tag, Timestamp,
+        KeyVersion, PacketLength, Password, PkeskBytes, PlainSecretParams, PublicParams,
+        SecretParams, SignatureBytes, SigningKey, Tag, Timestamp,
     },
 };
 
@@ -443,6 +443,19 @@ impl PacketTrait for SecretSubkey {
     }
 }
 
+/// The packet header after the packet body was replaced: same format and tag, with the length
+/// of the new body (an indeterminate length header does not store the length).
+fn header_for_body(header: PacketHeader, body_len: usize) -> Result<PacketHeader> {
+    match header.packet_length() {
+        PacketLength::Indeterminate => Ok(header),
+        _ => PacketHeader::from_parts(
+            header.version(),
+            header.tag(),
+            PacketLength::Fixed(body_len.try_into()?),
+        ),
+    }
+}
+
 impl SecretKey {
     /// Remove the password protection of the private key material in this secret key packet.
     /// This permanently "unlocks" the secret key material.
@@ -454,6 +467,7 @@ impl SecretKey {
         if let SecretParams::Encrypted(enc) = &self.secret_params {
             let unlocked = enc.unlock(password, &self.details, Some(self.packet_header.tag()))?;
             self.secret_params = SecretParams::Plain(unlocked);
+            self.packet_header = header_for_body(self.packet_header, self.write_len())?;
         }
 
         Ok(())
@@ -499,6 +513,7 @@ impl SecretKey {
             &self.details,
             Some(self.packet_header.tag()),
         )?);
+        self.packet_header = header_for_body(self.packet_header, self.write_len())?;
 
         Ok(())
     }
@@ -515,6 +530,7 @@ impl SecretSubkey {
         if let SecretParams::Encrypted(enc) = &self.secret_params {
             let unlocked = enc.unlock(password, &self.details, Some(self.packet_header.tag()))?;
             self.secret_params = SecretParams::Plain(unlocked);
+            self.packet_header = header_for_body(self.packet_header, self.write_len())?;
         }
 
         Ok(())
@@ -558,6 +574,7 @@ impl SecretSubkey {
             &self.details,
             Some(self.packet_header.tag()),
         )?);
+        self.packet_header = header_for_body(self.packet_header, self.write_len())?;
 
         Ok(())
     }
